@@ -16,6 +16,7 @@ type ControlChans struct {
 type pauseManager struct {
 	subscribers sync.Map // Map of *ControlChans to struct{}
 	isPaused    atomic.Bool
+	isResuming  atomic.Bool
 	message     string
 }
 
@@ -77,6 +78,17 @@ func Pause(message ...string) {
 // Resume reads from each subscriber's ResumeCh to unblock them.
 func Resume() {
 	verifhook.At("pause.resume.enter")
+	// Nothing is paused (unmatched call, or another controller already resumed):
+	// no subscriber will ever send on its ResumeCh, so do not wait for them.
+	if !manager.isPaused.Load() {
+		return
+	}
+	// Another resume is already collecting the acknowledgements.
+	if !manager.isResuming.CompareAndSwap(false, true) {
+		return
+	}
+	defer manager.isResuming.Store(false)
+
 	var wg sync.WaitGroup
 	manager.subscribers.Range(func(key, _ interface{}) bool {
 		chans := key.(*ControlChans)
